@@ -4,6 +4,7 @@ import ExponaxModel.Model.EtdrkSpec
 import ExponaxModel.Proofs.ReadOffForcing
 import ExponaxModel.Proofs.NonlinFunsEq
 import ExponaxModel.Proofs.LaminarEquilibriaExamples
+import ExponaxModel.Proofs.SmallGaps3Shear
 /-
 C12 — forcing terms inject exactly the documented field.
 `Gen.Misc.forced_step*` are regenerated from `exponax/_forced_stepper.py`; `Gen.Etdrk.*` from `etdrk/`.
@@ -243,6 +244,42 @@ theorem C12_shear_3d_no_convection_partial :
                       TwoMode c m uh →
                         ∀ (i h : ℕ), i < 3 → h < Nonlin.modes c → Nonlin.at2 (Nonlin.projected3d c none uh) i h = 0 :=
   @Exponax.Laminar3D.projected3d_shear_none_partial
+
+
+
+/-! ### 3-D: the rotational term vanishes on EVERY real shear profile (f(x₁), 0, 0), any N, any mask, Nyquist content included
+(discrete ∫u∂u = 0 for real grid fields) — supersedes the two-mode `_partial` statement at term level -/
+
+open Exponax.SmallGaps3 in
+theorem C12_shear_3d_no_convection_every_profile :
+    ∀ (c : Nonlin.Cfg ℂ),
+      c.D = 3 →
+        0 < c.N →
+          ∀ (s : ℝ),
+            c.s = ↑s →
+              s ≠ 0 →
+                ∀ (f : ℕ → ℝ) (i h : ℕ),
+                  Nonlin.at2 (Nonlin.projected3d c none #[Transform.rfftnM c.D c.N (profileField c f), #[], #[]]) i h = 0 :=
+  @Exponax.SmallGaps3.projected3d_shear_profile
+
+open Exponax.SmallGaps3 in
+theorem C12_discrete_integration_by_parts :
+    ∀ (c : Nonlin.Cfg ℂ),
+      0 < c.N →
+        ∀ (x : Array ℂ),
+          AliasND.IsRealND c.D c.N x →
+            ∀ (ρ1 ρ2 : ℕ → ℂ),
+              (∀ (h : ℕ), (Nonlin.mask c h * ρ1 h).im = 0) →
+                (∀ (h : ℕ), (Nonlin.mask c h * ρ2 h).re = 0) →
+                  ∑ j ∈ Finset.range (c.N ^ c.D),
+                      (Nonlin.nifft c
+                              (Transform.tab (Nonlin.modes c) fun h ↦ ρ1 h * (Transform.rfftnM c.D c.N x).getD h 0)).getD
+                          j 0 *
+                        (Nonlin.nifft c
+                              (Transform.tab (Nonlin.modes c) fun h ↦ ρ2 h * (Transform.rfftnM c.D c.N x).getD h 0)).getD
+                          j 0 =
+                    0 :=
+  @Exponax.SmallGaps3.sum_real_imag_mul_zero
 
 
 end Exponax
